@@ -321,7 +321,7 @@ fn run_cfg_in_child(cfg: &Cfg) -> (Scenario, Vec<Violation>) {
         let _ = std::fs::remove_file(&out_path);
         let outp = std::process::Command::new(&exe)
             .args(["run-one", &cfg_path, &out_path, &skip_path])
-            .env("ASAN_OPTIONS", "abort_on_error=1:detect_leaks=0:halt_on_error=1:symbolize=0:allocator_may_return_null=1")
+            .env("ASAN_OPTIONS", "abort_on_error=1:detect_leaks=0:halt_on_error=1:symbolize=0:allocator_may_return_null=1:malloc_context_size=0:quarantine_size_mb=8:fast_unwind_on_malloc=1")
             .stdout(std::process::Stdio::null())
             .stderr(std::process::Stdio::piped())
             .output()
@@ -416,6 +416,7 @@ fn main() {
             let mut tier = "quick".to_string();
             let mut out = "report.json".to_string();
             let mut jobs = 16usize;
+            let mut space: Option<String> = None;
             let mut i = 2;
             while i < args.len() {
                 match args[i].as_str() {
@@ -423,11 +424,12 @@ fn main() {
                     "--out" => { out = args[i + 1].clone(); i += 1; }
                     "--jobs" => { jobs = args[i + 1].parse().unwrap(); i += 1; }
                     "--props" => { i += 1; }
+                    "--space" => { space = Some(args[i + 1].clone()); i += 1; }
                     _ => {}
                 }
                 i += 1;
             }
-            let cfgs = configs(&tier);
+            let cfgs = configs(space.as_deref().unwrap_or(&tier));
             let queue = Arc::new(Mutex::new(cfgs.into_iter().rev().collect::<Vec<_>>()));
             let results = Arc::new(Mutex::new(Vec::new()));
             let mut hs = vec![];
